@@ -188,6 +188,9 @@ def build_driver(res):
     return True
 
 
+from srcguard import source_guard  # noqa: E402
+
+
 def build_harness(res, features=None, tag="default"):
     """cargo build of /verif/harness against REPO/lib (path dependency) with the hook guard on"""
     tdir = os.path.join(ROOT, "harness", "target" if tag == "default" else "target-" + tag)
@@ -195,6 +198,7 @@ def build_harness(res, features=None, tag="default"):
     if features is not None:
         cmd += " --no-default-features --features '%s'" % ",".join(features)
     env = {"RUSTFLAGS": "--cfg %s" % GUARD, "CARGO_TARGET_DIR": tdir}
+    source_guard(tdir, ["adf_bdd"], os.path.join(ROOT, "harness"), env)
     if REPO != "/repo":
         # replays against another checkout: patch the path dependency
         env["VERIF_REPO"] = REPO
